@@ -6,11 +6,12 @@ package wire
 
 import (
 	"crypto/hmac"
-	"crypto/md5" //nolint:gosec
+	"crypto/md5"  //nolint:gosec
 	"crypto/sha1" //nolint:gosec
 	"encoding/binary"
 	"errors"
 	"fmt"
+	"hash/crc32"
 	"net"
 )
 
@@ -348,6 +349,17 @@ func (b *B) MAC(key []byte) []byte {
 // Integrity appends MESSAGE-INTEGRITY computed with key.
 func (b *B) Integrity(key []byte) *B { return b.Attr(AttrMessageIntegrity, b.MAC(key)) }
 
+// Fingerprint appends FINGERPRINT (RFC 5389 15.5): CRC-32 of the message up to the attribute, with the
+// length field already counting it, XOR 0x5354554e.
+func (b *B) Fingerprint() *B {
+	hdr := b.header(len(b.attrs) + 8)
+	crc := crc32.ChecksumIEEE(append(hdr, b.attrs...)) ^ 0x5354554e
+	v := make([]byte, 4)
+	binary.BigEndian.PutUint32(v, crc)
+
+	return b.Attr(AttrFingerprint, v)
+}
+
 func (b *B) header(l int) []byte {
 	h := make([]byte, 20)
 	binary.BigEndian.PutUint16(h[0:], b.typ)
@@ -376,7 +388,7 @@ func (m *Msg) CheckIntegrity(key []byte) bool {
 			hdr := append([]byte(nil), m.Raw[:20]...)
 			binary.BigEndian.PutUint16(hdr[2:], uint16(off+24-20)) //nolint:gosec
 			h := hmac.New(sha1.New, key)
-			h.Write(hdr)            //nolint:errcheck
+			h.Write(hdr)           //nolint:errcheck
 			h.Write(m.Raw[20:off]) //nolint:errcheck
 
 			return hmac.Equal(h.Sum(nil), m.Raw[off+4:off+24])
